@@ -21,7 +21,18 @@ EXTRA_TB["C09"] = [
   "purity (document unchanged) is observed by deep comparison on every case, not proved (trivial in Gallina); the cache is modelled as the identity, its locking belongs to C13",
 ]
 
+EXTRA_TB["C17"] = [
+  "Parse/Build/Exec are an oracle in C17_meaning / C17_wrapped (any function of the data and of the text handed to the parser); the engine-level equality is additionally observed on the real engine by the metamorphic stream of the correspondence",
+  "Spec/LexDoc.v: the meaning of 'the same query in the other spelling' (segments Raw|SQ|BT|DQ|Open|Close, render PG|MY x Idiom|Arr) and the well-formedness predicates wf_quotes / wf_arrays",
+  "MySQL lexical rules for string bodies / backtick identifiers as stated in body_ok / bt_ok (backslash escapes + doubled delimiter; doubled backtick, no backslash escape)",
+]
+
 ASSUME = {
+    "C17": [
+  "a double-quoted identifier whose NAME ends in a backslash is outside the claim (the dialect spells a double quote as backslash+quote and has no spelling for a backslash before the closing quote)",
+  "a backslash outside quotes that is the last byte before a quote or bracket is outside the array claim (FindArrayIndex skips the byte after any unquoted backslash); backslashes outside quotes are not SQL",
+  "array rewrite applied to text that still has double quotes (IdiomaticArrays alone / swapped order): the spelled body must be a MySQL string body (wf_arrays PG)",
+    ],
     "C09": [
   "documents are JSON-like (nil, bool, float64, string, []any, map[string]any), no NaN/Inf",
   "C09_parse_print / C09_denotation and corollaries: wf_sel (keys without a quote and without '::'; untyped pipe keys are identifiers; typed pipe keys additionally without | { }; at least one dimension per bracket; indices < 2^63; function names are identifiers)",
@@ -48,6 +59,7 @@ def assumptions_text(pid):
 CONFIG = {
     "C15": {"shard": 1200},
     "C09": {"shard": 200},
+    "C17": {"shard": 400},
 }
 
 try:
